@@ -117,7 +117,25 @@ struct Functor {
 static void scenario_thread(int tkind, int bkind, int arg, int members)
 {
 	Board b;
-	switch (tkind % 10) {
+	switch (tkind % 11) {
+	case 10: { // start() again on an object whose previous run has ended (seen through finished()) but was never joined:
+		   // the second start() is a started Thread too, its body runs exactly once more and join() waits for it.
+		   // (Only two starts: finished() stays true after the first run, so a third start() could not know whether the
+		   // second run's thread has stopped touching the object.)
+		SubThread t(&b, 0, bkind, arg);
+		t.start();
+		double t0 = vf::now();
+		while (!t.finished() && vf::now() - t0 < 20)
+			usleep(50);
+		VF_CHECK(t.finished(), "subclassed Thread: finished() still false 20 s after start()");
+		VF_CHECK(b.ran[0] == 1, "subclassed Thread: finished() is true but the body has run ", b.ran[0].load(), " times");
+		t.start();
+		t.join();
+		VF_CHECK(b.ran[0] == 2, "subclassed Thread started again after its first run had ended (finished() true, never joined): the body ran ", b.ran[0].load(),
+		         " times in total by the time join() returned (want 2)");
+		VF_CHECK(t.finished(), "subclassed Thread: finished() is false after join()");
+		break;
+	}
 	case 9: { // a started Thread is copied, joined through the copy (as parallel_invoke and ThreadGroup do with their members);
 		  // another thread is started before the original object goes away, and must still be joined properly
 		SubThread* u = 0;
@@ -300,6 +318,62 @@ static void scenario_sem(int nprod, int ncons, int per, int delay)
 	}
 	VF_CHECK(!hung, "Semaphore: ", nprod * per * ncons, " posts were issued but only ", got_at_timeout, " waits completed within 20 s (lost post)");
 	VF_CHECK(sem.value() == 0, "Semaphore value ", sem.value(), " after equal numbers of posts and waits");
+}
+
+// Semaphore::wait(timeout): a post issued well before the timeout must be delivered to the waiter (wait returns true, at
+// once); timeouts with and without fractional parts, the wait starting at any phase of the wall-clock second.
+// A false return is accepted only when the deadline had really been reached before any post was issued.
+static void scenario_semt(int tsel, int nwaits, int phase, int delay)
+{
+	static const double TO[] = {2.5, 3.25, 2.75, 4.9, 2.999, 3.0, 2.001, 5.5};
+	double timeout = TO[(tsel % 8 + 8) % 8];
+	nwaits = 1 + (nwaits % 4 + 4) % 4;
+	for (int k = 0; k < nwaits; k++) {
+		Semaphore sem(0);
+		Semaphore* ps = &sem;
+		std::atomic<double> posted{0};
+		std::atomic<double>* pp = &posted;
+		// start at a chosen tenth of the wall-clock second (only delays this thread; the oracle does not depend on it)
+		double ph = ((phase + k * 3) % 10 + 10) % 10 / 10.0 + 0.03;
+		double nw = asl::now(), fr = nw - floor(nw);
+		double wait_ph = ph - fr;
+		if (wait_ph < 0)
+			wait_ph += 1;
+		if (wait_ph < 0.35) // (never sleeps long: cases that would need more keep their natural phase)
+			usleep((unsigned)(wait_ph * 1e6));
+		int d_us = 500 + (delay * 37 + k * 1013) % 20000;
+		Thread poster([=]() {
+			usleep(d_us);
+			ps->post();
+			*pp = vf::now();
+		});
+		double t0 = vf::now();
+		bool ok = sem.wait(timeout);
+		double t1 = vf::now();
+		poster.join();
+		double pt = posted;
+		if (!ok) {
+			bool before_deadline = t1 - t0 < timeout - 0.2;
+			bool post_was_there = pt > 0 && pt <= t1;
+			VF_CHECK(!(before_deadline || post_was_there), "Semaphore::wait(", timeout, ") on an empty semaphore returned false after ", t1 - t0, " s; post() was issued ", pt - t0,
+			         " s after the wait began, value() is now ", sem.value(), " (the post was not delivered to the waiter)");
+			vf::stats().cls("semt.legitimate_timeout");
+		}
+		else {
+			VF_CHECK(sem.value() == 0, "Semaphore::wait(timeout) returned true but value() is ", sem.value(), " after one post and one successful wait");
+			vf::stats().cls(timeout != floor(timeout) ? "semt.fractional_timeout_delivered" : "semt.integral_timeout_delivered");
+		}
+		// an expired wait: no post at all, short fractional timeout -> false, and not much too early
+		if (k == 0 && (delay % 4) == 0) {
+			double s0 = vf::now();
+			bool r = sem.wait(0.0125);
+			double s1 = vf::now();
+			VF_CHECK(!r, "Semaphore::wait(0.0125) returned true on a semaphore nobody posted");
+			(void)s0;
+			(void)s1;
+			vf::stats().cls("semt.expired_wait");
+		}
+	}
 }
 
 // Condition under the documented protocol: lock; while(!pred) wait(); unlock -- signal under the lock
@@ -526,6 +600,8 @@ void vf_run_case(const std::string& part, const vf::Case& c)
 		}
 		else if (o.name == "sem")
 			scenario_sem((int)o.i(0), (int)o.i(1), (int)o.i(2), (int)o.i(3));
+		else if (o.name == "semt")
+			scenario_semt((int)o.i(0), (int)o.i(1), (int)o.i(2), (int)o.i(3));
 		else if (o.name == "cond")
 			scenario_cond((int)o.i(0), (int)o.i(1), (int)o.i(2), (int)o.i(3));
 		else if (o.name == "condflag")
@@ -578,7 +654,7 @@ void vf_search(const vf::Args& a)
 	}();
 	// (3) generated thread scenarios under jitter
 	[&]() {
-		auto g = gen::map(gen::tuple(vf::irange<int>(0, 9), gen::weightedElement<int>({{4, 0}, {2, 1}, {2, 2}, {1, 3}}), vf::irange<int>(0, 20000), vf::irange<int>(0, 7), vf::irange<int>(1, 1000000)),
+		auto g = gen::map(gen::tuple(vf::irange<int>(0, 10), gen::weightedElement<int>({{4, 0}, {2, 1}, {2, 2}, {1, 3}}), vf::irange<int>(0, 20000), vf::irange<int>(0, 7), vf::irange<int>(1, 1000000)),
 		                  [=](const std::tuple<int, int, int, int, int>& t) {
 			                  vf::Case c;
 			                  int reps = std::get<1>(t) == 3 ? 3 : (a.quick() ? 20 : 100);
@@ -590,9 +666,9 @@ void vf_search(const vf::Args& a)
 			bool nontrivial = o.i(1) % 4 == 0 || (o.i(1) % 4 == 2 && o.i(2) < 200) || o.i(0) == 1 || o.i(0) == 2 || o.i(0) >= 4; // (kinds 7, 8: restarted thread / group)
 			if (nontrivial)
 				vf::stats().nt(vf::fnv(vf::serialize(c)));
-			static const char* tk[] = {"subclass", "lambda", "functor", "group", "invoke2", "invoke3", "invoke4", "subclass_restarted", "group_restarted", "copied_then_joined_via_copy"};
+			static const char* tk[] = {"subclass", "lambda", "functor", "group", "invoke2", "invoke3", "invoke4", "subclass_restarted", "group_restarted", "copied_then_joined_via_copy", "restarted_without_join"};
 			static const char* bk[] = {"empty", "stores", "spin", "sleep"};
-			vf::stats().cls(vf::str("thread.", tk[o.i(0) % 10]));
+			vf::stats().cls(vf::str("thread.", tk[o.i(0) % 11]));
 			vf::stats().cls(vf::str("body.", bk[o.i(1) % 4]));
 			vf::stats().cls("thread.jittered_repetitions", o.i(4));
 			if (o.i(0) == 1 && o.i(1) == 0)
@@ -632,7 +708,7 @@ void vf_search(const vf::Args& a)
 	}();
 	// (5) Semaphore / Condition scripts
 	[&]() {
-		auto g = gen::map(gen::tuple(gen::element(std::string("sem"), std::string("cond"), std::string("condflag")), vf::irange<int>(0, 3), vf::irange<int>(0, 3), vf::irange<int>(0, 49), vf::irange<int>(0, 1000)),
+		auto g = gen::map(gen::tuple(gen::element(std::string("sem"), std::string("cond"), std::string("condflag"), std::string("semt")), vf::irange<int>(0, 7), vf::irange<int>(0, 3), vf::irange<int>(0, 49), vf::irange<int>(0, 1000)),
 		                  [](const std::tuple<std::string, int, int, int, int>& t) {
 			                  vf::Case c;
 			                  c.add(vf::Op(std::get<0>(t), {std::get<1>(t), std::get<2>(t), std::get<3>(t), std::get<4>(t)}));
